@@ -109,7 +109,7 @@ def next_hop(ck, agg, nn):
                     agg.add("R04.5", f, "everything else goes to the parent on the parent pipe", ok, "next hop %r pipe %r" % (nh, pipe))
                 # the decisions depend on the right bits
                 for ev in out.trace:
-                    if ev.kind != "cond" or ev.func is not f:
+                    if ev.kind != "cond":
                         continue
                     vals = ev.data[1] if isinstance(ev.data[1], tuple) else (ev.data[1],)
                     for v in vals:
@@ -212,7 +212,7 @@ def pipes_differ_in_byte0(ck, agg, nn):
                     if out.kind != "return" or not isinstance(out.value, Ref):
                         continue
                     items = out.state.heap[out.value.ident].items
-                    iters = len([e for e in out.trace if e.kind == "loop-iter" and e.func is f])
+                    iters = net.addr_digits(out)
                     per.setdefault(iters, {})[pipe] = [norm(b).key() for b in items]
             for iters, d in per.items():
                 pipes = [p for p in d if p >= 1 or not am or iters == 0]
